@@ -21,10 +21,10 @@ namespace Pdq.Drv
 open Pdq
 
 def tagStep (tag : Nat) : Nat := (3 * tag + 1) % 1009
-def tagInterp (a b : SolState Q) (k : Nat) : Nat := (3 * b.tag + 5 * a.tag + k) % 1009
+def tagInterp (a b : LSolState Q) (k : Nat) : Nat := (3 * b.tag + 5 * a.tag + k) % 1009
 
 /-- the scripted solver (mirrors `ScriptedSolver` in `harness/checks/c06.py`) -/
-def scriptedSolver : Solver Q where
+def scriptedSolver : LSolver Q where
   init := fun t u => ⟨t, 0, u⟩
   step := fun s dt => ⟨s.t + dt, s.numSteps + 1, tagStep s.tag⟩
   interpFwd := fun t a b =>
@@ -63,7 +63,7 @@ def pwTable (tab : List (Q × Q × Q)) (x e : Q) : Q :=
   | some r => r.2.2
   | none => -1
 
-def showSol (s : SolState Q) : String := s!"{showRat s.t} {s.numSteps} {s.tag}"
+def showSol (s : LSolState Q) : String := s!"{showRat s.t} {s.numSteps} {s.tag}"
 
 def showEvent {σ} (showC : σ → String) : Event Q σ → String
   | .attempt a =>
